@@ -26,6 +26,9 @@ def cfg : Cfg :=
     pegSizeChecked := JanetModel.Gen.UnmarshSites.pegSizeChecked
     abstracts := JanetModel.Gen.UnmarshSites.abstracts
     jopCall := JanetModel.Gen.UnmarshSites.jopCall
-    threads := JanetModel.Gen.UnmarshSites.threads }
+    threads := JanetModel.Gen.UnmarshSites.threads
+    refChecked := JanetModel.Gen.UnmarshSites.refChecked
+    envRefChecked := JanetModel.Gen.UnmarshSites.envRefChecked
+    defRefChecked := JanetModel.Gen.UnmarshSites.defRefChecked }
 
 end JanetModel.Unmarsh.Bytes
